@@ -19,3 +19,9 @@ case "$1" in
     /usr/bin/time -f "$p wall=%es" ./check $p --tier thorough > selftest_out/thorough_$p.log 2>&1; echo "$p exit=$? $(grep -c ^VIOLATION selftest_out/thorough_$p.log) $(tail -2 selftest_out/thorough_$p.log | tr '\n' ' ' | cut -c1-200)"
   done;;
 esac
+case "$1" in
+ seeds)
+  for sd in $2; do
+   printf "%s\n" C01 C02 C03 C04 C05 C06 C07 C08 C09 C10 C11 C12 C13 C14 C15 C16 C17 C18 C19 C20 | xargs -P 3 -I{} bash -c "VERIF_SEED=$sd ./check {} --tier quick > selftest_out/seed${sd}_{}.log 2>&1; echo \"seed=$sd {} exit=\$? \$(grep -c ^VIOLATION selftest_out/seed${sd}_{}.log) \$(tail -1 selftest_out/seed${sd}_{}.log | cut -c1-100)\""
+  done;;
+esac
